@@ -163,6 +163,17 @@ func RunOnce(t *testing.T, cfg Config, prefix []int, wantTrace bool) (res ExecRe
 			// this worker (the driver keeps flushed violations).
 			abort(cfg.Name, prefix, x, s, "a managed thread panicked: "+x.Panics[0])
 		}
+		if x.Stuck != "" {
+			x.s.mu.Lock()
+			nf := len(x.fails)
+			x.s.mu.Unlock()
+			if nf > 0 {
+				// deadlocked execution judged a violation: its goroutines can
+				// never be released, so the bubble cannot end. Report and stop
+				// this worker.
+				abort(cfg.Name, prefix, x, s, "execution ended deadlocked: "+x.Stuck)
+			}
+		}
 		if x.cleanup != nil {
 			x.cleanup()
 		}
